@@ -177,7 +177,9 @@ func (state *State) NewSocket(src, dst net.Addr) *Socket {
 		laddr: dst,
 		raddr: src,
 
-		rchan: make(chan interface{}),
+		// one pending wake-up is retained: a flush that arrives while the
+		// reader is between its buffer check and its wait must not be lost
+		rchan: make(chan interface{}, 1),
 
 		// rbuffer: rbuf.NewFixedSizeRingBuf(65535),
 		// wbuffer: rbuf.NewFixedSizeRingBuf(65535),
